@@ -37,11 +37,20 @@ MANIFEST = {
 }
 
 
+MP_BODIES = [b'--b\r\nA: b\r\n\r\nv\r\n--b--\r\n', b'--b\r\nA: b\r\n\r\n\r\n--b\r\nC: d\r\n\r\nw\r\n--b--\r\nepilogue']
+MP_CTYPE = 'multipart/form-data; boundary=b'
+
+
 def data_of(n):
+    if n < 0:       # multipart family: body -n-1 followed by bytes of a pipelined next request
+        return MP_BODIES[-n - 1] + b'NEXT'
     return bytes(range(1, n + 1))
 
 
 def cls_for(n):
+    if n < 0:
+        L = len(MP_BODIES[-n - 1])
+        return [L - 3, L - 2, L, L + 2]
     return [None] + list(range(0, n + 3))
 
 
@@ -63,6 +72,11 @@ def configs(tier, seed):
     for n in (range(0, 6) if tier == 'quick' else range(0, 9)):
         for M in ([2, 4] if tier == 'quick' else [1, 2, 3, 4, 7]):
             out.append(('wsgi', n, M, True, None))
+    # multipart content type: the body is parsed while it is buffered; it must still arrive byte-exact
+    for fam in ((-1,) if tier == 'quick' else (-1, -2)):
+        for M in ([3, 8, 64] if tier == 'quick' else [2, 3, 5, 8, 13, 64]):
+            out.append(('comp', fam, M, True, None))
+    out.append(('wsgi', -1, 5, True, None))
     # seed extension: one extra (n, M) family, explored just as exhaustively
     extra_n = 9 + seed % 3 if tier == 'quick' else 15 + seed % 2
     out.append(('comp', extra_n, 2 + seed % 5, True, None))
@@ -70,18 +84,23 @@ def configs(tier, seed):
 
 
 def shards(tier, seed):
-    c = configs(tier, seed)
-    c.sort(key=lambda t: -(t[1] * (3 if not t[3] else 1)))
+    c = []
+    for t in configs(tier, seed):
+        if t[1] < 0:          # the multipart family is the costly one: one shard per Content-Length
+            c.extend(t + ((CL,),) for CL in cls_for(t[1]))
+        else:
+            c.append(t + (None,))
+    c.sort(key=lambda t: -((t[1] if t[1] >= 0 else 40) * (3 if not t[3] else 1)))
     return c
 
 
 def bounds(tier, seed):
     c = configs(tier, seed)
-    return {'configs': len(c), 'max_n': max(t[1] for t in c), 'thresholds': sorted({t[2] for t in c}),
-            'content_length': 'absent, 0..n+2', 'unmerged_bound': 2}
+    return {'configs': len(c), 'max_n': max(t[1] for t in c), 'multipart_bodies': [b.decode() for b in MP_BODIES], 'thresholds': sorted({t[2] for t in c}),
+            'content_length': 'absent, 0..n+2', 'multipart_family_answer_menu': 'reads that could be answered in more than 8 ways are answered with all/1/2/all-1 bytes', 'unmerged_bound': 2}
 
 
-FLOORS = {'short_read_execs': 50, 'kind_file': 5, 'kind_memory': 5, 'cl_below': 5, 'cl_equal': 5, 'cl_above': 5,
+FLOORS = {'multipart_ctype': 4, 'short_read_execs': 50, 'kind_file': 5, 'kind_memory': 5, 'cl_below': 5, 'cl_equal': 5, 'cl_above': 5,
           'wsgi_execs': 20}
 
 
@@ -98,8 +117,8 @@ def expected(data, CL):
 
 def run_component(om, ex, n, CL, M):
     data = data_of(n)
-    stream = ChoiceStream(ex, data, _src_prefix())
-    env = wsgi.environ('POST', '/', input=stream, clen=CL)
+    stream = ChoiceStream(ex, data, _src_prefix(), menu_cap=8 if n < 0 else None)
+    env = wsgi.environ('POST', '/', input=stream, clen=CL, ctype=MP_CTYPE if n < 0 else None)
     req = om.Request(env, config={'max_memfile_size': M})
     obs = {'hang': False, 'exc': None}
     try:
@@ -122,7 +141,7 @@ def run_component(om, ex, n, CL, M):
 
 def run_wsgi(om, ex, n, CL, M):
     data = data_of(n)
-    stream = ChoiceStream(ex, data, _src_prefix())
+    stream = ChoiceStream(ex, data, _src_prefix(), menu_cap=8 if n < 0 else None)
     app = om.Ombott({'max_memfile_size': M})
     seen = {}
 
@@ -131,7 +150,7 @@ def run_wsgi(om, ex, n, CL, M):
         seen['again'] = app.request.body.read()
         return seen['content']
     app.route('/p', 'POST', h)
-    env = wsgi.environ('POST', '/p', input=stream, clen=CL)
+    env = wsgi.environ('POST', '/p', input=stream, clen=CL, ctype=MP_CTYPE if n < 0 else None)
     obs = {'hang': False, 'exc': None}
     try:
         c = wsgi.call(app, env)
@@ -178,12 +197,12 @@ def judge(kind, obs, n, CL, M):
 
 
 def work(spec):
-    kind, n, M, merge, bound = spec
+    kind, n, M, merge, bound, cls = spec
     res = core.new_result()
     om = sut.load()
     runner = run_component if kind == 'comp' else run_wsgi
-    for CL in cls_for(n):
-        ex = EnvExplorer(merge=merge, bound=bound, horizon=60 * (n + 3))
+    for CL in (cls or cls_for(n)):
+        ex = EnvExplorer(merge=merge, bound=bound, horizon=60 * (len(data_of(n)) + 3))
         for choices, obs in ex.explore(lambda e: runner(om, e, n, CL, M)):
             res['execs'] += 1
             res['transitions'] += len(obs['calls'])
@@ -203,7 +222,10 @@ def work(spec):
                                    f'n={n} CL={CL} M={M} answers={choices}: {v[1]}', sig=f'{kind}:{v[0]}')
         c = res['counters']
         if CL is not None:
-            c['cl_below' if CL < n else 'cl_equal' if CL == n else 'cl_above'] += 1
+            nn = len(data_of(n))
+            c['cl_below' if CL < nn else 'cl_equal' if CL == nn else 'cl_above'] += 1
+            if n < 0:
+                c['multipart_ctype'] += 1
         res['states'] += len(ex.seen) + 1
         c['points_merged'] += ex.merged
         c['points_expanded'] += ex.points_expanded
@@ -218,7 +240,7 @@ def replay(case):
     om = sut.load()
     runner = run_component if case['kind'] == 'comp' else run_wsgi
     n, CL, M = case['n'], case['CL'], case['M']
-    ex = EnvExplorer(merge=False, horizon=60 * (n + 3))
+    ex = EnvExplorer(merge=False, horizon=60 * (len(data_of(n)) + 3))
     obs = ex.replay(lambda e: runner(om, e, n, CL, M), case['choices'])
     v = judge(case['kind'], obs, n, CL, M)
     if v is None:
